@@ -2184,6 +2184,9 @@ class _SVMethod:
             if n == 'format':
                 return _OpaqueStr() if any(not isinstance(a, (str, int)) for a in args) else o.format(*args)
             if n in ('join',):
+                if isinstance(args[0], _LazyMap) and isinstance(args[0].seq, _MapView):
+                    # sep.join(map(str, m.keys())): decimal numerals separated by sep - a string without line break unless sep has one
+                    return SStr([('op', 'join-keys', o, args[0].seq.m.t.sexpr())]) if '\n' not in o else _OpaqueStr()
                 xs = it.iterate(args[0])
                 if any(isinstance(a, SStr) for a in xs) and all(isinstance(a, (str, SStr)) for a in xs):
                     parts = []
@@ -2495,6 +2498,9 @@ def _b_getattr(it, args, kw):
 def _b_map(it, args, kw):
     if len(args) == 2 and isinstance(args[1], SV) and args[1].kind in ('plist', 'plist_rev'):
         return _LazyMap(args[0], args[1])
+    if len(args) == 2 and isinstance(args[0], Builtin) and args[0].name == 'str' and \
+            ((isinstance(args[1], _MapView) and args[1].which == 'keys' and args[1].m.kind == 'pmap') or (isinstance(args[1], SV) and args[1].kind == 'pmap')):
+        return _LazyMap(args[0], args[1] if isinstance(args[1], _MapView) else _MapView(args[1], 'keys'))      # str of every (integer) key of a symbolic map
     if len(args) == 2:
         return [it.call(args[0], [x], {}) for x in it.iterate(args[1])]
     raise Unsupported('map with several iterables')
